@@ -9,12 +9,19 @@ CONF = dict(
  'cancellation; deadlines from already expired (<= 0) through 1 ns to a year; duplicate results, stale slice content that looks like a fresh result, stale '
  'errors, mismatched slice lengths; goroutines of the bubble counted at instants around every event and after the last one. Histories: 2..5 calls on ONE '
  'collector object started while an earlier call is in progress / at the instant it returns / after it returned while its late clocks are still running, '
- 'with length mismatches in between. Non-trivial: a round with >= 2 clocks of which at least one is not finished by the deadline (or finishes exactly at it) '
- 'and at least one finishes by it; a history in which a call is made while another is in progress; distinct = distinct (kind, input)'),
+ 'with length mismatches in between. Contexts: with a deadline, cancelled explicitly before the deadline, without deadline and cancelled explicitly, without '
+ 'deadline and not cancelled until every clock has completed; clocks that never complete whatever happens to the context. Races: 2..3 goroutines released from a '
+ 'spin barrier call MeasureClockOffsets on one collector at the same virtual instant with no synchronisation between them (5000 trials per quick run, varying '
+ 'per-caller delays and yielding). Non-trivial: a round with >= 2 clocks of which at least one is not finished by the deadline (or finishes exactly at it) '
+ 'and at least one finishes by it; a history in which a call is made while another is in progress; a race with at least two callers whose rounds take time; '
+ 'distinct = distinct (kind, input)'),
     assumptions=['virtual time with maximal progress (testing/synctest semantics): time advances only when no goroutine can run; timed events fire in time order, events of one '
  'instant in any order',
  "Go's select picks any ready arm; an unbuffered channel send is a rendezvous; a cancelled context's Done channel stays closed",
  'a call starting at the very instant another call on the same collector returns may be refused or let in (both orders of the two events are schedules)',
+ 'concurrent callers reach the compare-and-swap in some total order (linearizability of sync/atomic); the observation of a race case must be what the guard '
+ 'model does for one of the orders, and must satisfy an oracle that does not depend on the order',
+ "the model's deadline is the instant at which the context's Done channel closes (deadline or explicit cancel, whichever is first)",
  'goroutines are counted per synctest bubble from runtime.Stack; scripted durations are doubled and counts taken at odd instants so that a count never races '
  'with an event of the same instant'],
     trusted=['modelled, not verified: goroutine scheduling, channel rendezvous, select, context.WithTimeout, atomic.CompareAndSwapUint32, defer/recover of the Go runtime',
@@ -37,5 +44,5 @@ CONF = dict(
  'a model schedule plus the property oracle'),
     timeout_quick=600,
     timeout_thorough=3000,
-    min_cases={'collect': 2101, 'history': 1050},
+    min_cases={'collect': 2101, 'history': 1050, 'race': 1500},
 )
